@@ -36,6 +36,8 @@ func main() {
 	flag.Var(&harnesses, "harness", "harness function name[:k=v;k=v] (repeatable)")
 	flag.Var(&cfgs, "cfg", "k=v config applied to all harnesses")
 	flag.Var(&redirs, "redirect", "qualified.Function=HarnessFunction: run the harness function instead (repeatable)")
+	var initAllow multiFlag
+	flag.Var(&initAllow, "init-allow", "additional package path prefix whose initialiser is run (repeatable)")
 	workers := flag.Int("workers", 16, "parallel workers")
 	maxPaths := flag.Int("max-paths", 20000, "path limit per harness")
 	steps := flag.Int("steps", 2000000, "SSA instruction limit per path")
@@ -92,6 +94,7 @@ func main() {
 	eng.solverLog = *slog
 	eng.dumpQueries = *dump
 	eng.hashAxioms = *hashAx
+	eng.initAllow = append(eng.initAllow, initAllow...)
 	for _, r := range redirs {
 		if p := strings.SplitN(r, "=", 2); len(p) == 2 {
 			eng.redirects[p[0]] = p[1]
